@@ -10,6 +10,7 @@
    * run_ok ev_atomic  nothing is applied on a replica between its FSM.Snapshot and the Persist of that snapshot
                        (excludes exactly the shape of finding S23). *)
 From V Require Import Base.Common Model.C01_RaftLog Proofs.C01_RaftLog.
+From V Require Import Model.C01_Check Proofs.C01_Monitor.
 Open Scope N_scope.
 
 Definition clean (es : list mevent) : Prop := forallb clean_ev es = true.
@@ -130,3 +131,76 @@ Example guards_inhabited :
 Proof. exact demo_ok. Qed.
 Example wf_pin_inhabited_ex : wf_pin (wpin 0 1) = true.
 Proof. exact (proj1 wf_pin_inhabited). Qed.
+
+(* ---- the run-time monitor spec_okb (Model/C01_Check.v, code 2) and the theorems above ---- *)
+
+(* soundness: a trace accepted by the monitor (on a command table inside the premise of the property) satisfies, event by event,
+   the Prop-level reading trace_spec (Proofs/C01_Monitor.v): every apply is the next entry of the one committed sequence and lies
+   inside it; no replica crashes; an installed snapshot is labelled inside the sequence; an acknowledged command is in the sequence
+   at a position its committer has applied; every served pinset is the replay of a prefix not shorter than what the replica was
+   given; the tracker was told exactly the stored pins of the applied entries (as a multiset); OfflineState is the replay of the
+   prefix its newest snapshot is labelled with; after a kill the state is the replay of a prefix containing every acknowledged op *)
+Theorem raft_monitor_sound k cmds es : forallb in_premise cmds = true -> spec_okb k cmds es = true ->
+  trace_spec cmds [] (repeat snode0 (nn k)) es.
+Proof. exact (monitor_sound_l k cmds es). Qed.
+Print Assumptions raft_monitor_sound.
+
+(* completeness w.r.t. the model, for every number of replicas, command table and trace: if the implementation agrees with the
+   model on the trace (model_eqb: code 1 absent), the table is inside the premise and free of the S19 shape, and the trace
+   satisfies trace_guard (commands are rows of the table; nothing applied / restored on a replica between its FSM.Snapshot and
+   the Persist of it - the guard ev_atomic of the theorems, the shape of S23; the R3 observation is the last event), then every
+   conjunct of the monitor that the model speaks about holds (`core`: all events but OAck and OReady) *)
+Theorem raft_model_passes_monitor k cmds es :
+  forallb in_premise cmds = true -> is_S19 cmds = false -> trace_guard k cmds es = true ->
+  model_eqb k cmds es = true -> spec_run_sel core cmds [] (repeat snode0 (nn k)) es = true.
+Proof. exact (model_passes_monitor_l k cmds es). Qed.
+Print Assumptions raft_model_passes_monitor.
+
+(* ... and the monitor is exactly these conjuncts plus the two the model has no event for: acknowledgements (LogPin returned
+   nil: pass 1 accepts every OAck) and the C17 readiness bound *)
+Theorem raft_model_passes_spec_okb k cmds es :
+  is_S19 cmds = false -> trace_guard k cmds es = true -> model_eqb k cmds es = true ->
+  spec_run_sel (fun e => negb (core e)) cmds [] (repeat snode0 (nn k)) es = true -> spec_okb k cmds es = true.
+Proof. exact (model_passes_spec_okb_l k cmds es). Qed.
+Print Assumptions raft_model_passes_spec_okb.
+
+(* non-vacuity: two replicas, pin / unpin, a snapshot installed onto the other replica, a restart, observations; every guard
+   holds, the model agrees and the monitor accepts; the monitor rejects the same trace with a gap in the applied positions *)
+Definition monitor_demo_cmds : list logop := [LPin (wpin 0 1); LPin (wpin 1 1); LUnpin (wpin 0 1)].
+Definition monitor_demo_trace : list oevent :=
+  [OCommit 0; OApply 0 0; OAck 0 0; OCommit 1; OApply 0 1; OSnapReq 0 true; OPersist 0; ORestore 1 0 0 2;
+   OObs 1 (Some [wpin 0 1; wpin 1 1]); OCommit 2; OApply 1 2; OObs 1 (Some [wpin 1 1]); OObs 0 (Some [wpin 0 1; wpin 1 1]);
+   OTrk 0 [TCall true 1 2 (-1)%Z 0 []; TCall true 0 2 (-1)%Z 0 []]; OTrk 1 [TCall false 0 0 0%Z 0 []];
+   OOffline 0 [wpin 0 1; wpin 1 1]; ORestart 0; OObs 0 (Some []); OApply 0 0; OApply 0 1; OApply 0 2; OObs 0 (Some [wpin 1 1])].
+Example raft_monitor_example :
+  forallb in_premise monitor_demo_cmds = true /\ is_S19 monitor_demo_cmds = false /\
+  trace_guard 2 monitor_demo_cmds monitor_demo_trace = true /\ model_eqb 2 monitor_demo_cmds monitor_demo_trace = true /\
+  spec_okb 2 monitor_demo_cmds monitor_demo_trace = true /\
+  spec_okb 2 monitor_demo_cmds [OCommit 0; OCommit 1; OApply 0 1] = false.
+Proof. repeat split; vm_compute; reflexivity. Qed.
+
+(* what the completeness analysis found (each by evaluation; see docs/C01.md):
+   (a) the acknowledgement conjunct is NOT implied by agreement with the model: the model has no acknowledgement event, pass 1
+       accepts an OAck anywhere; this trace agrees with the model and fails the monitor untagged;
+   (b) the guard trace_guard cannot be weakened to "no late snapshot is restored" (the recogniser of S23, tag 3): OfflineState of
+       a replica whose newest snapshot was persisted after a later entry had been applied agrees with the model, fails the
+       monitor, and is not recognised (tag 0) - the harness never reads OfflineState in a rig where Persist can be held back *)
+Example raft_monitor_ack_not_implied :
+  let es := [OCommit 0; OAck 0 0] in
+  model_eqb 1 monitor_demo_cmds es = true /\ trace_guard 1 monitor_demo_cmds es = true /\
+  spec_okb 1 monitor_demo_cmds es = false /\ tag_of monitor_demo_cmds es = 0.
+Proof. repeat split; vm_compute; reflexivity. Qed.
+Example raft_monitor_offline_late_snapshot_untagged :
+  let es := [OCommit 0; OApply 0 0; OSnapReq 0 true; OCommit 1; OApply 0 1; OPersist 0; OOffline 0 [wpin 0 1; wpin 1 1]] in
+  model_eqb 1 monitor_demo_cmds es = true /\ trace_guard 1 monitor_demo_cmds es = false /\
+  spec_okb 1 monitor_demo_cmds es = false /\ tag_of monitor_demo_cmds es = 0.
+Proof. repeat split; vm_compute; reflexivity. Qed.
+(* (c) likewise a snapshot INSTALLED on a replica between its FSM.Snapshot and the Persist of it makes a late snapshot that the S23
+       recogniser (which only looks at applies) does not flag: restoring it and replaying agrees with the model, fails, tag 0 *)
+Example raft_monitor_install_between_snapshot_and_persist_untagged :
+  let cmds := [LPin (wpin 0 1); LPin (wpin 1 1); LUnpin (wpin 1 1); LPin (wpin 2 1)] in
+  let es := [OCommit 0; OCommit 1; OCommit 2; OCommit 3; OApply 0 0; OApply 0 1; OApply 0 2; OApply 0 3; OSnapReq 0 true; OPersist 0;
+             OApply 1 0; OSnapReq 1 true; ORestore 1 0 0 4; OPersist 1; ORestart 1; ORestore 1 1 0 1; OApply 1 1;
+             OObs 1 (Some [wpin 0 1; wpin 1 1; wpin 2 1])] in
+  model_eqb 2 cmds es = true /\ trace_guard 2 cmds es = false /\ spec_okb 2 cmds es = false /\ tag_of cmds es = 0.
+Proof. repeat split; vm_compute; reflexivity. Qed.
